@@ -26,6 +26,7 @@ WRAPS_COMMON = [
     "pthread_rwlock_rdlock", "pthread_rwlock_wrlock", "pthread_rwlock_unlock",
     "__cxa_guard_acquire", "__cxa_guard_release", "__cxa_guard_abort",
     "getenv", "fopen", "__assert_fail", "getauxval", "getuid", "geteuid", "getgid", "getegid", "secure_getenv",
+    "isalpha", "isalnum", "isdigit", "isspace", "isupper", "islower", "ispunct", "tolower", "toupper",
 ]
 # clang builds: the library's thread_locals go through __emutls_get_address, which the scheduler serves per task
 EMUTLS_WRAPS = ["__emutls_get_address", "__cxa_thread_atexit"]
